@@ -100,6 +100,18 @@ class Playback(BaseEngine):
     # ------------------------------------------------------------ generation
     def gen(self, prop, seed, idx, tier):
         rng = rng_for(prop, seed, idx, 'plan')
+        if idx % 50 == 9:
+            # two threads, each iterating and measuring its own file, under the simulated scheduler
+            from .ports_conc import ENGINE as PC
+            files = []
+            for _ in range(2):
+                files.append({'tpb': pick(rng, TPBS), 'tracks': [
+                    [[pick(rng, DELTAS), 'tempo', pick(rng, TEMPOS)]] +
+                    [[pick(rng, DELTAS), pick(rng, ('note', 'note', 'tempo', 'text')), rng.randrange(1, 100000)]
+                     for _ in range(rng.randint(1, 5))] for _ in range(rng.randint(1, 2))]})
+            plan = PC.gen_twin_files(prop, seed, idx, files, rng)
+            plan['mode'] = 'twin_threads'
+            return plan
         ftype = weighted(rng, ((0, 2), (1, 6), (2, 1)))
         ntracks = 1 if ftype == 0 else rng.randint(1, 4)
         tpb = pick(rng, TPBS + (rng.randint(1, 32767),))
@@ -164,7 +176,8 @@ class Playback(BaseEngine):
                       'pick': rng.randrange(1000)}
         return {'prop': prop, 'type': ftype, 'tpb': tpb, 'tracks': tracks, 'clock': clock,
                 'delays': delays, 'abandon_after': pick(rng, (None, None, None, 0, 1, 3)),
-                'meta_messages': rng.random() < 0.4, 'second': second, 'bystander': bystander}
+                'meta_messages': rng.random() < 0.4, 'second': second, 'bystander': bystander,
+                'play_mutate': rng.random() < 0.3}
 
     # ------------------------------------------------------------ execution
     def abort_cleanup(self):
@@ -172,8 +185,13 @@ class Playback(BaseEngine):
         if saved is not None:
             mfmod.time = saved
             self._saved = None
+        from .ports_conc import ENGINE as PC
+        PC.abort_cleanup()
 
     def run(self, prop, plan, keep_log=False):
+        if plan.get('mode') == 'twin_threads':
+            from .ports_conc import ENGINE as PC
+            return PC.run(prop, plan, keep_log=keep_log)
         log = Log(keep_log)
         stats = collections.Counter()
         cov = set()
@@ -422,6 +440,13 @@ class Playback(BaseEngine):
                 if t_request > true_start + fs + tol:
                     stats['probe:consumer_overran_next_event'] += 1
             log.ev('play', got, m.type, repr(round(clock.true - true_start, 9)))
+            if plan.get('play_mutate'):
+                # the docstring of play() says the yielded copies may be modified freely
+                try:
+                    m.time = 0 if got % 2 else 3600.0
+                except Exception:
+                    pass
+                stats['fault:consumer_mutates_played'] += 1
             got += 1
             d = delays[got % len(delays)]
             if d == 'to_next':
@@ -470,6 +495,10 @@ class Playback(BaseEngine):
 
     # ------------------------------------------------------------ shrinking
     def shrink(self, prop, plan):
+        if plan.get('mode') == 'twin_threads':
+            from .ports_conc import ENGINE as PC
+            yield from PC.shrink(prop, plan)
+            return
         if len(plan['tracks']) > 1 and plan['type'] != 0:
             yield from shrink_list_at(plan, ('tracks',), min_len=1)
         for i in range(len(plan['tracks'])):
@@ -483,6 +512,9 @@ class Playback(BaseEngine):
             yield replace_at(plan, ('delays',), [0.0])
         if plan['abandon_after'] is not None:
             yield replace_at(plan, ('abandon_after',), None)
+        for flag in ('play_mutate', 'second', 'bystander'):
+            if plan.get(flag):
+                yield replace_at(plan, (flag,), None if flag != 'play_mutate' else False)
         if plan['tpb'] != 480:
             yield replace_at(plan, ('tpb',), 480)
         for i, tr in enumerate(plan['tracks']):
